@@ -425,7 +425,12 @@ K_LTO = "LtoKept:%s:run-loop-idle-pause-exceeds-the-LTO-it-announced"
 def full_traffic(kind, k, seed, quick):
     """which configurations get the full traffic phase (run loops + applications): the whole (miu, lto) and
     (lsc, agf, snep) products, a quarter (thorough: all) of the NFC-DEP product, a sample of the big sub-grids"""
-    if kind in ("ml", "opt", "lto"):
+    if kind == "lto":
+        # lto 2560 is not encodable (announced as 0 by the code as it is): its activation is projected, its
+        # traffic is not judged
+        x = grid_cfg(kind, k)
+        return max(x["ltoI"], x["ltoT"]) <= 2559
+    if kind in ("ml", "opt"):
         return True
     if kind == "dep":
         return (k + seed) % 4 == 0 if quick else True
